@@ -115,6 +115,25 @@ STRENGTHENED.update({
     "c03-8": "same as c03-6 (first credited by mistake, found missed by the final re-evaluation). New kind c03.company: `[A, B]` must be `[A alone, B alone]` in both orders, for 12 pattern/flags pairs whose concatenations coincide in either order x 7 regular-expression functions; the same collisions were added to the history kind of C19 and the rerun workload of C05",
 })
 # changes that were confirmed but are not violations of the property as given (both behaviours are accepted by the checks)
+STRENGTHENED.update({
+    # round 5 (cNN-12, cNN-13)
+    "c02-13": "C02 missed it at first; one array (with spare capacity behind its length, as decoders and append produce it) is now reached under two different paths of one update, and both the input and the other path's view must be unaffected",
+    "c03-12": "filed under C03 by its author; regular-expression offsets in code points are the subject of C14, which catches it",
+    "c03-13": "filed under C03 by its author; the text of strings with invalid UTF-8 is the subject of C12 (the reference interpreter of C03 declares it unsupported), which catches it",
+    "c05-12": "C05 missed it at first (C19 caught it); new kind c05.callback: values handed back by registered Go functions (the argument slice itself, parts of it, wrapped in an object, through an iterator) must read as they were emitted after every later output and after the end, in two runs",
+    "c06-12": "C06 missed it at first; new kind c06.mixed: 8 goroutines x 25 runs of one Code with variables, mixing complete runs, cancelled-then-drained runs, runs with too many / too few variable values, abandoned runs and finished iterators advanced again",
+    "c06-13": "same as c06-12 (c06.mixed)",
+    "c07-12": "C07 missed it at first; the registered Go functions of the option pool now also fail (an error value, an iterator of one / two errors, of none, a plain error) at 14 positions x every error context",
+    "c08-12": "C08 missed it at first; sizes beyond the interpreter's initial tables: 20..300 variables in one scope, and the scale programs of C01",
+    "c10-12": "C10 missed it at first; sums of the boundary integers through add, add/1, reduce, foreach, getpath-sum, and three-term sums in every order",
+    "c12-12": "needs two goroutines: new kind c06.marshal (goroutines marshalling different values at once) catches it under C06; C12 is single-threaded by design",
+    "c13-13": "C13 missed it at first; new law: two setpaths applied to one base value must not see each other (`$b | setpath(p; x)` and `$b | setpath(q; y)` then both read back, and $b unchanged)",
+    "c15-12": "C15 missed it at first (C16 caught it); --raw-input became an option of the C15 model, with lines of 0..70001 bytes around the readers' buffer sizes in five positions x six option sets",
+    "c15-13": "C15 missed it at first; doubles computed at run time at the thresholds of the number format (1e17, 1e-5, 2^53, 1e308 ...) were added to the literal pool",
+    "c19-13": "C19 missed it at first; data imports whose alias is spelled like a variable of the caller (c19.modvars cases 7 and 8, loader with LoadJSON)",
+    "c20-12": "C20 missed it at first; loops whose turn joins values (`[., 1] | add`, `{a: .} | .a`, string interpolation) were added to the generator and loop forms",
+    "c20-13": "C20 missed it at first (C16 caught it); new kind c20.command-files: inputs / input / --slurp / --stream / -R over 150 and over 600 files with a descriptor limit of 32",
+})
 NOT_A_VIOLATION = {
     "c15-6": "after a malformed document in a file that is not the last one, the unchanged command goes on with the next file, the changed one stops. C16 says of a malformed document 'every complete value before it, then one error, then end of input' and C15 speaks of runtime errors of the query only; neither property decides whether the files named later are still read, so the checks accept both (DESIGN 9.2, 'not defects')",
 }
